@@ -113,34 +113,35 @@ Proof.
   destruct (IHbs _ I' H3) as (I'' & A' & B'). split; auto. split; congruence.
 Qed.
 
-Lemma prune_blocks_wr : forall d e h cnt n carry,
+Lemma prune_blocks_wr : forall d kh e h cnt n carry,
   e <= h -> n + N.of_nat cnt <= e -> Forall (prune_wr h) carry ->
-  Forall (Forall (prune_wr h)) (fst (prune_blocks d e n cnt carry)).
+  Forall (Forall (prune_wr h)) (fst (prune_blocks d kh e n cnt carry)).
 Proof.
   induction cnt; simpl; intros n carry He Hn Hc; [constructor|].
   destruct (find_num n (d_fam d FSU)) as [sb|]; [|constructor].
   specialize (IHcnt (n + 1) [] He ltac:(lia) ltac:(constructor)).
-  destruct (prune_blocks d e (n + 1) cnt []) as [r ok]. simpl in *. constructor; auto.
+  destruct (prune_blocks d kh e (n + 1) cnt []) as [r ok]. simpl in *. constructor; auto.
   apply Forall_app. split; auto. apply Forall_app. split.
   - destruct (n + 1 =? e); constructor; [|constructor]. simpl. split; [discriminate|lia].
-  - repeat constructor; simpl; try discriminate; lia.
+  - constructor; [simpl; split; [discriminate|lia]|].
+    destruct kh; repeat constructor; simpl; try discriminate; lia.
 Qed.
 
 Lemma floor_fold_le : forall l m, fold_left (fun m x => N.min m (b_num x)) l m <= m.
 Proof. induction l; simpl; intros; [lia|]. specialize (IHl (N.min m (b_num a))). lia. Qed.
 
-Lemma prune_plan_wr : forall W d e h, e <= h ->
-  Forall (Forall (prune_wr h)) (prune_plan W d e).
+Lemma prune_plan_wr : forall W d kh e h, e <= h ->
+  Forall (Forall (prune_wr h)) (prune_plan W d kh e).
 Proof.
-  intros W d e h He. unfold prune_plan. destruct (floor d) as [start|]; [|constructor].
+  intros W d kh e h He. unfold prune_plan. destruct (floor d) as [start|]; [|constructor].
   destruct (e <=? start) eqn:E; [constructor|]. apply N.leb_gt in E.
   assert (Hgen : forall cw, Forall (prune_wr h) cw ->
      Forall (Forall (prune_wr h))
-       (let (bs, ok) := prune_blocks d e start (N.to_nat (e - start)) cw in
+       (let (bs, ok) := prune_blocks d kh e start (N.to_nat (e - start)) cw in
         if ok then bs ++ [[]; prune_data_batch W e] else bs)).
   { intros cw Hcw.
-    pose proof (prune_blocks_wr d e h (N.to_nat (e - start)) start cw He ltac:(lia) Hcw) as P.
-    destruct (prune_blocks d e start (N.to_nat (e - start)) cw) as [bs ok]. simpl in P.
+    pose proof (prune_blocks_wr d kh e h (N.to_nat (e - start)) start cw He ltac:(lia) Hcw) as P.
+    destruct (prune_blocks d kh e start (N.to_nat (e - start)) cw) as [bs ok]. simpl in P.
     destruct ok; auto. apply Forall_app. split; auto.
     constructor; [constructor|]. constructor; [|constructor].
     unfold prune_data_batch. apply Forall_app. split.
